@@ -684,7 +684,7 @@ pub fn gen(seed: u64, tier: &str) -> Vec<String> {
     let thorough = tier == "thorough";
     let mut g = G::new(seed);
     // ---- random histories
-    let nh = if thorough { 6000 } else { 1000 };
+    let nh = if thorough { 20000 } else { 1000 };
     for i in 0..nh {
         g.history(i, 40);
     }
@@ -747,7 +747,7 @@ pub fn gen(seed: u64, tier: &str) -> Vec<String> {
             }
             g.op("alloc_end 4".to_string());
         }
-        let do_rej = if thorough { ai % 16 == 0 } else { ai % 3 == 0 };
+        let do_rej = if thorough { ai % 4 == 0 } else { ai % 3 == 0 };
         if do_rej {
             g.start(format!("rej.{:07}", ai), ai % 2 == 1);
             for s in &setup {
